@@ -146,17 +146,28 @@ pub(crate) fn read_described_bytes<'de, R>(reader: &mut R) -> Result<Vec<u8>, Er
 where
     R: Read<'de>,
 {
-    // Read 0x00
-    let mut bytes = reader.read_bytes(1)?;
+    let mut bytes = Vec::new();
 
-    // Read the descriptor
-    let mut descriptor_bytes =
-        read_primitive_bytes_or_else(reader, |_| Err(Error::InvalidFormatCode))?;
-    bytes.append(&mut descriptor_bytes);
+    // The value of a described value may itself be a described value. This is read in a loop
+    // rather than recursively so that the nesting depth cannot exhaust the stack.
+    loop {
+        // Read 0x00
+        bytes.append(&mut reader.read_bytes(1)?);
 
-    // Read the value, which may itself be a described value
-    let mut value_bytes = read_primitive_bytes_or_else(reader, read_described_bytes)?;
-    bytes.append(&mut value_bytes);
+        // Read the descriptor
+        let mut descriptor_bytes =
+            read_primitive_bytes_or_else(reader, |_| Err(Error::InvalidFormatCode))?;
+        bytes.append(&mut descriptor_bytes);
 
-    Ok(bytes)
+        // Read the value
+        match reader.peek() {
+            Some(code) if code == EncodingCodes::DescribedType as u8 => continue,
+            _ => {
+                let mut value_bytes =
+                    read_primitive_bytes_or_else(reader, |_| Err(Error::InvalidFormatCode))?;
+                bytes.append(&mut value_bytes);
+                return Ok(bytes);
+            }
+        }
+    }
 }
